@@ -105,7 +105,7 @@ pub fn ivs_driver(data: &[u8], _ctx: &[Vec<u8>], a: [u32; 3], w: &mut Walker) {
     match &tag_of(a[2]) {
         b"HVAR" => {
             let Ok(t) = read_fonts::tables::hvar::Hvar::read(fd) else { return w.tagb(0) };
-            for g in gid_boundaries(3) {
+            for g in (0..24u32).chain(gid_boundaries(24)) {
                 for c in coords.iter() {
                     fixed_res(w, t.advance_width_delta(GlyphId::new(g), c));
                     fixed_res(w, t.lsb_delta(GlyphId::new(g), c));
@@ -124,7 +124,7 @@ pub fn ivs_driver(data: &[u8], _ctx: &[Vec<u8>], a: [u32; 3], w: &mut Walker) {
         }
         b"VVAR" => {
             let Ok(t) = read_fonts::tables::vvar::Vvar::read(fd) else { return w.tagb(0) };
-            for g in gid_boundaries(3) {
+            for g in (0..24u32).chain(gid_boundaries(24)) {
                 for c in coords.iter() {
                     fixed_res(w, t.advance_height_delta(GlyphId::new(g), c));
                     fixed_res(w, t.tsb_delta(GlyphId::new(g), c));
@@ -156,6 +156,19 @@ pub fn ivs_driver(data: &[u8], _ctx: &[Vec<u8>], a: [u32; 3], w: &mut Walker) {
             }
             if let Some(Ok(ivs)) = t.item_variation_store() {
                 ivs_obs(&ivs, w)
+            }
+        }
+        b"avar" => {
+            let Ok(t) = read_fonts::tables::avar::Avar::read(fd) else { return w.tagb(0) };
+            match t.axis_index_map() {
+                Some(Ok(m)) => dsim_obs(&m, w),
+                Some(Err(e)) => rerr(w, &e),
+                None => w.tagb(2),
+            }
+            match t.var_store() {
+                Some(Ok(ivs)) => ivs_obs(&ivs, w),
+                Some(Err(e)) => rerr(w, &e),
+                None => w.tagb(2),
             }
         }
         b"GDEF" => {
@@ -631,12 +644,14 @@ pub fn post_driver(data: &[u8], _ctx: &[Vec<u8>], _a: [u32; 3], w: &mut Walker) 
     let n = post.num_names();
     w.u(n as u64);
     // glyph_name(i) walks the string data (VarLenArray::get is linear): bounded sample of ids
-    let mut gids: Vec<u32> = (0..(n as u32).min(96)).collect();
+    let mut gids: Vec<u32> = (0..(n as u32).min(1024)).collect();
     gids.extend(gid_boundaries(n as u32));
     for g in gids {
         if g > 0xFFFF || !w.step() {
             continue;
         }
+        // glyph_name walks the pascal strings from the start: charge the linear cost to the horizon
+        w.nodes += g.min(n as u32) as u64 / 4;
         match post.glyph_name(GlyphId16::new(g as u16)) {
             Some(s) => {
                 w.tagb(1);
@@ -796,12 +811,15 @@ pub fn sbix_driver(data: &[u8], _ctx: &[Vec<u8>], a: [u32; 3], w: &mut Walker) {
             let strikes = t.strikes();
             w.u(strikes.len() as u64);
             for (i, s) in strikes.iter().enumerate() {
-                if i >= 8 || !w.step() {
+                if i >= 64 || !w.step() {
                     break;
                 }
                 match s {
                     Ok(s) => {
-                        for g in (0..a[0].min(64)).chain(gid_boundaries(a[0])) {
+                        for g in (0..a[0].min(1024)).chain(gid_boundaries(a[0])) {
+                            if g & 7 == 0 && !w.step() {
+                                break;
+                            }
                             match s.glyph_data(GlyphId::new(g)) {
                                 Ok(Some(d)) => {
                                     w.u(d.data().len() as u64);
